@@ -14,7 +14,7 @@ var c08Templates = [][]string{
 		"{call b.u data=\"all\"}{param p: $x /}{param q}<{$x}>{/param}{/call}{call .v data=\"$m\" /}{call .v data=\"$m ?: $m\"}{param k: $x /}{param j}c{/param}{/call}{call .v data=\"$x ? $m : $m\"}{param j: 1 /}{/call}{call .v data=\"$m\"}{param k: 2 /}{/call}\n{/template}\n/** @param? k\n @param? j */\n{template .v autoescape=\"false\"}\n({$k}{$j ?: ''}){let $k2: 1/}{$k2}\n{/template}\n",
 		"{namespace b}\n/** @param x\n @param p\n @param q\n @param l */\n{template .u}\n{$p}{$q|noAutoescape}{let $x2: $x /}{foreach $j in $l}{$j}{/foreach}{$x2|escapeUri}{call .raw data=\"all\"/}{$x}\n{/template}\n/** @param x */\n{template .raw autoescape=\"false\"}\n{$x}\n{/template}\n"},
 	// 1: msg, css, switch, literal, globals-free expressions, map/list literals
-	{"{namespace a}\n/** @param x\n @param l */\n{template .t}\n{foreach $e in $l}{$e}{/foreach}{msg desc=\"d\"}Hi <b>{$x}</b>{/msg}{css $x, c}{switch $x}{case 'a'}A{default}D{/switch}" +
+	{"{namespace a}\n/** @param x\n @param l */\n{template .t}\n{foreach $e in $l}{$e}{/foreach}{msg desc=\"d\"}Hi <b>{$x}</b>{/msg}{msg desc=\"p\"}<span class=\"c\" phname=\"strong\">{$x}</span><br phname=\"lb\"/>{/msg}{css $x, c}{switch $x}{case 'a'}A{default}D{/switch}" +
 		"{let $mm: ['k': $x, 'j': [1, 2]] /}{$mm['k']}{$mm.j[1]}{keys($mm)|length}{let $am: augmentMap($mm, ['z': 1]) /}{$am.z}{$ij.inj}\n{/template}\n"},
 	// 2: a template that fails half way (undefined print after output and a let)
 	{"{namespace a}\n/** @param x\n @param? l\n @param? u */\n{template .t}\nbefore{if $l}L{/if}{let $y: $x /}{$y}{call .w data=\"all\"}{param z: 1 /}{/call}{$u}after\n{/template}\n/** @param x\n @param z */\n{template .w}\n{$x}{$z}\n{/template}\n"},
